@@ -417,6 +417,10 @@ def as_slice(v):
         return SliceV(v.items, 0, len(v.items))
     if isinstance(v, SliceV):
         return v
+    if isinstance(v, list):
+        return SliceV(v, 0, len(v))
+    if isinstance(v, StrV):
+        return SliceV(v.items, 0, len(v.items))
     raise Unsupported('as_slice %r' % (v,))
 
 
@@ -771,6 +775,8 @@ def str_items(v):
         return v.items
     if isinstance(v, SliceV):
         return v.base[v.lo:v.hi]
+    if isinstance(v, list):
+        return v
     raise Unsupported('str_items %r' % (v,))
 
 
@@ -783,6 +789,8 @@ def str_slice(v):
         return SliceV(v.items, 0, len(v.items))
     if isinstance(v, SliceV):
         return v
+    if isinstance(v, list):
+        return SliceV(v, 0, len(v))
     raise Unsupported('str_slice %r' % (v,))
 
 
@@ -1125,11 +1133,15 @@ def fmt_pad_integral(m, mt, args, tys, dty):
     f, nonneg, prefix, buf = args
     f = deref(f)
     nn = m.branch_bool(nonneg)
-    if not nn:
-        f.out.append(45)
-    elif f.plus:
-        f.out.append(43)
-    f.out.extend(str_items(buf))
+    pad = getattr(f, 'pad', None)
+    if pad and pad.get('width') is not None:
+        f.out.extend(_apply_padding(list(str_items(buf)), pad, 1, '' if (nn and not f.plus) else ('+' if nn else '-')))
+    else:
+        if not nn:
+            f.out.append(45)
+        elif f.plus:
+            f.out.append(43)
+        f.out.extend(str_items(buf))
     if not hasattr(f, 'calls'):
         f.calls = []
     f.calls.append((nn, list(str_items(prefix)), list(str_items(buf))))
@@ -1201,10 +1213,76 @@ def render_arg(m, a, plus, out):
         out.extend(f.out)
 
 
-@summary(r"<(?:std::string::)?String as std::fmt::Write>::write_fmt")
-def string_write_fmt(m, mt, args, tys, dty):
-    s = deref(args[0])
-    a = args[1]
+def _apply_padding(body, opt, default_align, numeric_sign=None):
+    """std padding semantics on a rendered body (list of char codes); numeric_sign: '' | '-' | '+' for integers (else None)"""
+    width = opt.get('width')
+    fill = opt.get('fill', 32)
+    align = opt.get('align', 3)
+    if numeric_sign is not None:
+        signs = [ord(c) for c in numeric_sign]
+        if width is None:
+            return signs + body
+        if opt.get('zero'):
+            pad = max(0, width - len(body) - len(signs))
+            return signs + [48] * pad + body
+        body = signs + body
+    if width is None or len(body) >= width:
+        return body
+    pad = width - len(body)
+    al = default_align if align == 3 else align
+    if al == 0:
+        return body + [fill] * pad
+    if al == 1:
+        return [fill] * pad + body
+    return [fill] * (pad // 2) + body + [fill] * (pad - pad // 2)
+
+
+def render_arg_opts(m, a, opt, out):
+    v = deref(a.ref)
+    t = a.ty
+    plus = opt.get('plus', False)
+    plain = opt.get('width') is None and opt.get('precision') is None
+    if re.fullmatch(INT, t):
+        if is_sym(v):
+            if not plain:
+                raise Unsupported('padded rendering of a symbolic integer')
+            out.append(IntRender(v, plus))
+            return
+        body = [ord(c) for c in str(abs(v))]
+        sign = '-' if v < 0 else ('+' if plus else '')
+        out.extend(_apply_padding(body, opt, 1, sign))
+        return
+    if t in ('&str', 'str', 'std::string::String', 'String', '&std::string::String', 'char'):
+        items = list(str_items(v)) if t != 'char' else [v if not isinstance(v, str) else ord(v)]
+        if any(isinstance(c, IntRender) for c in items) and not plain:
+            raise Unsupported('padded rendering of a string with a symbolic integer rendering')
+        if opt.get('precision') is not None:
+            items = items[:opt['precision']]
+        out.extend(_apply_padding(items, opt, 0))
+        return
+    if plain and not plus:
+        render_arg(m, a, plus, out)
+        return
+    if t in ('num_bigint::BigInt', 'BigInt', 'num_bigint::BigUint', 'BigUint', '&num_bigint::BigInt', '&num_bigint::BigUint'):
+        st = big_to_str_radix(m, None, [Ref([v], 0), 10], None, None)
+        items = list(st.items)
+        sign = ''
+        if items and items[0] == 45:
+            sign, items = '-', items[1:]
+        elif plus:
+            sign = '+'
+        out.extend(_apply_padding(items, opt, 1, sign))
+        return
+    # a type of the crate with explicit options: its own fmt body sees them through the Formatter
+    f = FmtV(precision=opt.get('precision'), plus=plus)
+    f.pad = opt
+    trait = 'std::fmt::Display' if a.kind == 'display' else 'std::fmt::Debug'
+    m.call('<%s as %s>::fmt' % (t, trait), [a.ref, Ref([f], 0)], ['&' + t, '&mut Formatter'], 'Result<(), Error>')
+    out.extend(f.out)
+
+
+def render_template(m, a, out):
+    """interpret the byte template of fmt::Arguments (layout documented in core/src/fmt/mod.rs of this nightly)"""
     t = a.template
     i = 0
     argi = 0
@@ -1213,29 +1291,91 @@ def string_write_fmt(m, mt, args, tys, dty):
         if b == 0:
             break
         if b < 0x80:
-            s.items.extend(t[i + 1:i + 1 + b])
+            out.extend(t[i + 1:i + 1 + b])
             i += 1 + b
         elif b == 0x80:
             n = t[i + 1] | (t[i + 2] << 8)
-            s.items.extend(t[i + 3:i + 3 + n])
+            out.extend(t[i + 3:i + 3 + n])
             i += 3 + n
         elif b >= 0xC0:
-            flags = 0
-            i0 = i
+            opt = {}
             i += 1
             if b & 1:
-                flags = int.from_bytes(t[i:i + 4], 'little'); i += 4
+                flags = int.from_bytes(t[i:i + 4], 'little')
+                i += 4
+                opt['fill'] = flags & 0x1FFFFF
+                opt['plus'] = bool(flags & (1 << 21))
+                opt['zero'] = bool(flags & (1 << 24))
+                opt['alternate'] = bool(flags & (1 << 23))
+                opt['align'] = (flags >> 29) & 3
             if b & 2:
+                w = int.from_bytes(t[i:i + 2], 'little')
                 i += 2
+                if b & 16:
+                    w = deref(a.args[w].ref)
+                    if is_sym(w):
+                        w = m.concretize(w)
+                opt['width'] = w
             if b & 4:
+                p = int.from_bytes(t[i:i + 2], 'little')
                 i += 2
+                if b & 32:
+                    p = deref(a.args[p].ref)
+                    if is_sym(p):
+                        p = m.concretize(p)
+                opt['precision'] = p
             if b & 8:
-                argi = int.from_bytes(t[i:i + 2], 'little'); i += 2
-            plus = bool(flags & (1 << 21))
-            render_arg(m, a.args[argi], plus, s.items)
+                argi = int.from_bytes(t[i:i + 2], 'little')
+                i += 2
+            render_arg_opts(m, a.args[argi], opt, out)
             argi += 1
         else:
             raise Unsupported('template byte %x' % b)
+
+
+@summary(r"<(?:std::string::)?String as std::fmt::Write>::write_fmt")
+def string_write_fmt(m, mt, args, tys, dty):
+    s = deref(args[0])
+    render_template(m, args[1], s.items)
+    return mk_enum('Result', 'Ok', [Agg('tuple', '()', [])])
+
+
+@summary(r"(?:std::fmt::|alloc::fmt::)?format")
+def fmt_format(m, mt, args, tys, dty):
+    out = []
+    render_template(m, args[0], out)
+    return StrV(out)
+
+
+@summary(r"must_use::<.*>")
+def hint_must_use(m, mt, args, tys, dty):
+    return args[0]
+
+
+@summary(r"core::fmt::rt::Argument::from_usize")
+def fmt_arg_from_usize(m, mt, args, tys, dty):
+    return ArgV('usize', 'usize', args[0])
+
+
+@summary(r"Formatter::write_fmt")
+def formatter_write_fmt(m, mt, args, tys, dty):
+    f = deref(args[0])
+    render_template(m, args[1], f.out)
+    return mk_enum('Result', 'Ok', [Agg('tuple', '()', [])])
+
+
+@summary(r"Formatter::write_str")
+def formatter_write_str(m, mt, args, tys, dty):
+    deref(args[0]).out.extend(str_items(args[1]))
+    return mk_enum('Result', 'Ok', [Agg('tuple', '()', [])])
+
+
+@summary(r"Formatter::(pad|write_char)")
+def formatter_pad(m, mt, args, tys, dty):
+    f = deref(args[0])
+    v = args[1]
+    items = list(str_items(v)) if mt.group(1) == 'pad' else [v if not isinstance(v, str) else ord(v)]
+    f.out.extend(_apply_padding(items, getattr(f, 'pad', {}), 0) if mt.group(1) == 'pad' else items)
     return mk_enum('Result', 'Ok', [Agg('tuple', '()', [])])
 
 
@@ -1482,7 +1622,9 @@ def str_repeat(m, mt, args, tys, dty):
 @summary(r'<std::string::String as std::hash::Hash>::hash::<.*>')
 def string_hash(m, mt, args, tys, dty):
     h = deref(args[1])
-    h.append(list(str_items(args[0])) + [0xff])
+    # std: Hasher::write_str = write(bytes) followed by write_u8(0xff) = write(&[0xff])
+    h.append(list(str_items(args[0])))
+    h.append([0xff])
     return Agg('tuple', '()', [])
 
 
@@ -2143,3 +2285,768 @@ summary(r'Formatter::sign_aware_zero_pad')(_fmt_opt('sign_aware_zero_pad', False
 def impl_fnonce_call(m, mt, args, tys, dty):
     clo, tup = args
     return call_callable(m, clo, list(tup.fields), dty)
+
+
+# ================================================================== broad std coverage (so that refactorings using other std APIs stay executable)
+
+def _range_bounds(m, r, n, kind):
+    """-> (lo, hi) python ints for a Range* value over a sequence of length n"""
+    c = lambda v: m.concretize(v) if is_sym(v) else v
+    if kind in (None, ''):
+        return c(r.fields[0]), c(r.fields[1])
+    if kind == 'From':
+        return c(r.fields[0]), n
+    if kind == 'To':
+        return 0, c(r.fields[0])
+    if kind == 'Full':
+        return 0, n
+    if kind == 'Inclusive':
+        return c(r.fields[0]), c(r.fields[1]) + 1
+    if kind == 'ToInclusive':
+        return 0, c(r.fields[0]) + 1
+    raise Unsupported('range kind ' + str(kind))
+
+
+_RANGE_RX = r'(?:std::ops::|core::ops::)?Range(From|To|Full|Inclusive|ToInclusive)?(?:<usize>)?'
+
+
+@summary(r'core::str::<impl str>::get::<%s>' % _RANGE_RX)
+def str_get_range(m, mt, args, tys, dty):
+    sl = str_slice(args[0])
+    lo, hi = _range_bounds(m, args[1], len(sl), mt.group(1))
+    if lo > hi or hi > len(sl):
+        return NONE()
+    return some(SliceV(sl.base, sl.lo + lo, sl.lo + hi))
+
+
+@summary(r'core::slice::<impl \[.*\]>::get::<%s>' % _RANGE_RX)
+def slice_get_range(m, mt, args, tys, dty):
+    sl = as_slice(args[0])
+    lo, hi = _range_bounds(m, args[1], len(sl), mt.group(1))
+    if lo > hi or hi > len(sl):
+        return NONE()
+    return some(SliceV(sl.base, sl.lo + lo, sl.lo + hi))
+
+
+@summary(r'core::slice::<impl \[.*\]>::get(_mut)?::<usize>')
+def slice_get_idx(m, mt, args, tys, dty):
+    sl = as_slice(args[0])
+    i = m.concretize(args[1])
+    if i < 0 or i >= len(sl):
+        return NONE()
+    return some(sl.ref(i))
+
+
+@summary(r'<(?:str|std::string::String) as Index(?:Mut)?<%s>>::index(?:_mut)?' % _RANGE_RX)
+def str_index_any_range(m, mt, args, tys, dty):
+    sl = str_slice(args[0])
+    lo, hi = _range_bounds(m, args[1], len(sl), mt.group(1))
+    if lo > hi or hi > len(sl):
+        raise Panic('IndexOOB', 'str range %d..%d len %d' % (lo, hi, len(sl)))
+    return SliceV(sl.base, sl.lo + lo, sl.lo + hi)
+
+
+@summary(r'<(?:\[.*\]|std::vec::Vec<.*>|\[.*; \d+\]) as Index(?:Mut)?<%s>>::index(?:_mut)?' % _RANGE_RX)
+def slice_index_any_range(m, mt, args, tys, dty):
+    v = deref(args[0])
+    sl = as_slice(v) if not isinstance(v, list) else SliceV(v, 0, len(v))
+    lo, hi = _range_bounds(m, args[1], len(sl), mt.group(1))
+    if lo > hi or hi > len(sl):
+        raise Panic('IndexOOB', 'slice range %d..%d len %d' % (lo, hi, len(sl)))
+    return SliceV(sl.base, sl.lo + lo, sl.lo + hi)
+
+
+@summary(r'<(?:\[.*\]|\[.*; \d+\]) as Index(?:Mut)?<usize>>::index(?:_mut)?')
+def slice_index_usize(m, mt, args, tys, dty):
+    v = deref(args[0])
+    sl = as_slice(v) if not isinstance(v, list) else SliceV(v, 0, len(v))
+    i = m.concretize(args[1])
+    if i < 0 or i >= len(sl):
+        raise Panic('IndexOOB', 'index %d len %d' % (i, len(sl)))
+    return sl.ref(i)
+
+
+@summary(r'core::slice::<impl \[.*\]>::(first|last)(_mut)?')
+def slice_first_last(m, mt, args, tys, dty):
+    sl = as_slice(args[0])
+    if len(sl) == 0:
+        return NONE()
+    return some(sl.ref(0 if mt.group(1) == 'first' else len(sl) - 1))
+
+
+@summary(r'core::slice::<impl \[.*\]>::is_empty|std::vec::Vec::<.*>::is_empty')
+def slice_is_empty(m, mt, args, tys, dty):
+    return len(as_slice(args[0])) == 0
+
+
+@summary(r'core::slice::<impl \[.*\]>::(to_vec|to_owned)|<\[.*\] as ToOwned>::to_owned|<std::vec::Vec<.*> as Clone>::clone')
+def slice_to_vec(m, mt, args, tys, dty):
+    sl = as_slice(args[0])
+    return VecV([copy_val(sl.get(i)) for i in range(len(sl))])
+
+
+@summary(r'core::slice::<impl \[.*\]>::reverse')
+def slice_reverse(m, mt, args, tys, dty):
+    sl = as_slice(args[0])
+    vals = [sl.get(i) for i in range(len(sl))][::-1]
+    for i, v in enumerate(vals):
+        sl.base[sl.lo + i] = v
+    return UNIT()
+
+
+@summary(r'core::slice::<impl \[.*\]>::swap')
+def slice_swap(m, mt, args, tys, dty):
+    sl = as_slice(args[0])
+    i, j = m.concretize(args[1]), m.concretize(args[2])
+    if max(i, j) >= len(sl):
+        raise Panic('IndexOOB', 'swap')
+    sl.base[sl.lo + i], sl.base[sl.lo + j] = sl.base[sl.lo + j], sl.base[sl.lo + i]
+    return UNIT()
+
+
+@summary(r'core::slice::<impl \[.*\]>::(starts_with|ends_with)')
+def slice_starts_with(m, mt, args, tys, dty):
+    a, b = as_slice(args[0]), as_slice(args[1])
+    if len(b) > len(a):
+        return False
+    off = 0 if mt.group(1) == 'starts_with' else len(a) - len(b)
+    conds = []
+    for i in range(len(b)):
+        x, y = a.get(off + i), b.get(i)
+        if not is_sym(x) and not is_sym(y):
+            if x != y:
+                return False
+        else:
+            conds.append(x == y)
+    return z3.And(conds) if conds else True
+
+
+@summary(r'core::slice::<impl \[.*\]>::contains')
+def slice_contains(m, mt, args, tys, dty):
+    a = as_slice(args[0])
+    x = deref(args[1])
+    conds = []
+    for i in range(len(a)):
+        y = a.get(i)
+        if not is_sym(x) and not is_sym(y):
+            if x == y:
+                return True
+        else:
+            conds.append(x == y)
+    return z3.Or(conds) if conds else False
+
+
+@summary(r'std::vec::Vec::<.*>::(new|with_capacity)')
+def vec_new(m, mt, args, tys, dty):
+    return VecV([])
+
+
+@summary(r'std::vec::Vec::<.*>::(reserve|reserve_exact|shrink_to_fit)|std::string::String::(reserve_exact|shrink_to_fit)')
+def vec_reserve(m, mt, args, tys, dty):
+    return UNIT()
+
+
+@summary(r'std::vec::Vec::<.*>::pop')
+def vec_pop(m, mt, args, tys, dty):
+    v = deref(args[0])
+    if not v.items:
+        return NONE()
+    return some(v.items.pop())
+
+
+@summary(r'std::vec::Vec::<.*>::remove')
+def vec_remove(m, mt, args, tys, dty):
+    v = deref(args[0])
+    i = m.concretize(args[1])
+    if i >= len(v.items):
+        raise Panic('IndexOOB', 'Vec::remove')
+    return v.items.pop(i)
+
+
+@summary(r'std::vec::Vec::<.*>::insert')
+def vec_insert_any(m, mt, args, tys, dty):
+    v = deref(args[0])
+    i = m.concretize(args[1])
+    if i > len(v.items):
+        raise Panic('IndexOOB', 'Vec::insert')
+    v.items.insert(i, args[2])
+    return UNIT()
+
+
+@summary(r'std::vec::Vec::<.*>::resize')
+def vec_resize_any(m, mt, args, tys, dty):
+    v = deref(args[0])
+    n = m.concretize(args[1])
+    if n > 200000:
+        raise BoundExceeded('resize to %d' % n)
+    if n <= len(v.items):
+        del v.items[n:]
+    else:
+        v.items.extend([args[2]] * (n - len(v.items)))
+    return UNIT()
+
+
+@summary(r'std::vec::Vec::<.*>::clear')
+def vec_clear_any(m, mt, args, tys, dty):
+    deref(args[0]).items[:] = []
+    return UNIT()
+
+
+@summary(r'std::vec::Vec::<.*>::extend_from_slice')
+def vec_extend_from_slice(m, mt, args, tys, dty):
+    v = deref(args[0])
+    sl = as_slice(args[1])
+    v.items.extend(sl.get(i) for i in range(len(sl)))
+    return UNIT()
+
+
+@summary(r'std::vec::Vec::<.*>::(as_mut_slice|as_slice)|<std::vec::Vec<.*> as (?:AsRef|AsMut|Borrow)<\[.*\]>>::(?:as_ref|as_mut|borrow)')
+def vec_as_mut_slice(m, mt, args, tys, dty):
+    return as_slice(args[0])
+
+
+@summary(r'std::vec::from_elem::<.*>')
+def vec_from_elem(m, mt, args, tys, dty):
+    n = m.concretize(args[1])
+    if n > 200000:
+        raise BoundExceeded('vec![x; %d]' % n)
+    return VecV([copy_val(args[0]) for _ in range(n)])
+
+
+@summary(r'std::string::String::(with_capacity)')
+def string_with_capacity(m, mt, args, tys, dty):
+    return StrV()
+
+
+@summary(r'std::string::String::push')
+def string_push(m, mt, args, tys, dty):
+    c = args[1]
+    deref(args[0]).items.append(ord(c) if isinstance(c, str) else c)
+    return UNIT()
+
+
+@summary(r'std::string::String::insert_str')
+def string_insert_str(m, mt, args, tys, dty):
+    s = deref(args[0])
+    i = m.concretize(args[1])
+    if i > len(s.items):
+        raise Panic('IndexOOB', 'insert_str')
+    s.items[i:i] = list(str_items(args[2]))
+    return UNIT()
+
+
+@summary(r'std::string::String::(truncate)')
+def string_truncate(m, mt, args, tys, dty):
+    s = deref(args[0])
+    n = m.concretize(args[1])
+    del s.items[n:]
+    return UNIT()
+
+
+@summary(r'std::string::String::(clear)')
+def string_clear(m, mt, args, tys, dty):
+    deref(args[0]).items[:] = []
+    return UNIT()
+
+
+@summary(r'std::string::String::pop')
+def string_pop(m, mt, args, tys, dty):
+    s = deref(args[0])
+    if not s.items:
+        return NONE()
+    return some(s.items.pop())
+
+
+@summary(r'<std::string::String as Clone>::clone|<str as ToOwned>::to_owned|core::str::<impl str>::(to_owned|to_string)|<std::string::String as std::string::ToString>::to_string|<std::string::String as From<std::string::String>>::from|<std::string::String as From<&std::string::String>>::from')
+def string_clone(m, mt, args, tys, dty):
+    return StrV(list(str_items(args[0])))
+
+
+@summary(r'<std::string::String as (?:AsRef|Borrow)<str>>::(?:as_ref|borrow)|<std::string::String as DerefMut>::deref_mut|std::string::String::as_mut_str')
+def string_as_ref(m, mt, args, tys, dty):
+    return str_slice(args[0])
+
+
+@summary(r'std::string::String::from_utf8_unchecked|std::string::String::from_utf8_lossy|core::str::from_utf8_unchecked|from_utf8_unchecked')
+def string_from_utf8_unchecked(m, mt, args, tys, dty):
+    v = deref(args[0])
+    return StrV(list(v.items)) if isinstance(v, VecV) else str_slice(v)
+
+
+@summary(r'(?:core::str::(?:converts::)?)?from_utf8')
+def str_from_utf8(m, mt, args, tys, dty):
+    # contract: the harness only supplies valid UTF-8 (bytes are treated as characters)
+    return mk_enum('Result', 'Ok', [as_slice(args[0])])
+
+
+@summary(r'std::string::String::(as_bytes)|std::string::String::as_mut_vec')
+def string_as_bytes(m, mt, args, tys, dty):
+    return str_slice(args[0])
+
+
+@summary(r'core::str::<impl str>::(find|rfind)::<&str>')
+def str_find_str(m, mt, args, tys, dty):
+    it = list(str_items(args[0]))
+    pat = list(str_items(args[1]))
+    rng = range(0, len(it) - len(pat) + 1)
+    if mt.group(1) == 'rfind':
+        rng = reversed(rng)
+    for i in rng:
+        ok = True
+        for j, p in enumerate(pat):
+            r = char_eq(m, it[i + j], p)
+            if r is None:
+                raise Unsupported('find inside integer rendering')
+            if not r:
+                ok = False
+                break
+        if ok:
+            return some(i)
+    return NONE()
+
+
+@summary(r'core::str::<impl str>::rfind::<(char|&\[char\])>')
+def str_rfind(m, mt, args, tys, dty):
+    it = str_items(args[0])
+    pats = _pattern_codes(args[1])
+    for i in range(len(it) - 1, -1, -1):
+        for p in pats:
+            r = char_eq(m, it[i], p)
+            if r is None:
+                raise Unsupported('rfind inside integer rendering')
+            if r:
+                return some(i)
+    return NONE()
+
+
+@summary(r'core::str::<impl str>::(split_once|rsplit_once)::<(char)>')
+def str_split_once(m, mt, args, tys, dty):
+    sl = str_slice(args[0])
+    it = sl.base[sl.lo:sl.hi]
+    p = _pattern_codes(args[1])[0]
+    idxs = range(len(it)) if mt.group(1) == 'split_once' else range(len(it) - 1, -1, -1)
+    for i in idxs:
+        r = char_eq(m, it[i], p)
+        if r is None:
+            raise Unsupported('split_once inside integer rendering')
+        if r:
+            return some(Agg('tuple', '()', [SliceV(sl.base, sl.lo, sl.lo + i), SliceV(sl.base, sl.lo + i + 1, sl.hi)]))
+    return NONE()
+
+
+@summary(r'core::char::methods::<impl char>::(is_ascii_digit|is_ascii)|core::num::<impl u8>::(is_ascii_digit|is_ascii)')
+def char_is_ascii_digit(m, mt, args, tys, dty):
+    c = deref(args[0])
+    what = mt.group(1) or mt.group(2)
+    if what == 'is_ascii':
+        return c < 128
+    return z3.And(c >= 48, c <= 57) if is_sym(c) else (48 <= c <= 57)
+
+
+@summary(r'core::char::methods::<impl char>::to_digit')
+def char_to_digit(m, mt, args, tys, dty):
+    c, radix = args
+    if radix != 10:
+        raise Unsupported('to_digit radix')
+    isd = z3.And(c >= 48, c <= 57) if is_sym(c) else (48 <= c <= 57)
+    return some(c - 48) if m.branch_bool(isd) else NONE()
+
+
+# ---- Option / Result combinators
+@summary(r'Option::<.*>::(unwrap_or_else|map_or_else|map_or|filter|or_else|ok_or|unwrap_or_default|take|cloned|copied|as_ref|as_mut|as_deref|xor|and|is_none_or|inspect)(?:::<.*>)?')
+def option_more(m, mt, args, tys, dty):
+    what = mt.group(1)
+    o = deref(args[0])
+    is_some = o.variant == 'Some'
+    if what == 'unwrap_or_else':
+        return o.fields[0] if is_some else call_callable(m, args[1], [], dty)
+    if what == 'map_or':
+        return call_callable(m, args[2], [o.fields[0]], dty) if is_some else args[1]
+    if what == 'map_or_else':
+        return call_callable(m, args[2], [o.fields[0]], dty) if is_some else call_callable(m, args[1], [], dty)
+    if what == 'filter':
+        if not is_some:
+            return NONE()
+        return o if m.branch_bool(call_callable(m, args[1], [Ref([o.fields[0]], 0)], 'bool')) else NONE()
+    if what == 'or_else':
+        return o if is_some else call_callable(m, args[1], [], dty)
+    if what == 'ok_or':
+        return mk_enum('Result', 'Ok', [o.fields[0]]) if is_some else mk_enum('Result', 'Err', [args[1]])
+    if what == 'unwrap_or_default':
+        if is_some:
+            return o.fields[0]
+        raise Unsupported('unwrap_or_default on None')
+    if what == 'take':
+        r = mk_enum('Option', o.variant, list(o.fields))
+        args[0].set(NONE())
+        return r
+    if what in ('cloned', 'copied'):
+        return some(copy_val(deref(o.fields[0]))) if is_some else NONE()
+    if what in ('as_ref', 'as_mut'):
+        return some(Ref(o.fields, 0)) if is_some else NONE()
+    if what == 'as_deref':
+        return some(deref(o.fields[0])) if is_some else NONE()
+    if what == 'and':
+        return args[1] if is_some else NONE()
+    if what == 'xor':
+        b = args[1]
+        if is_some != (b.variant == 'Some'):
+            return o if is_some else b
+        return NONE()
+    if what == 'is_none_or':
+        return True if not is_some else call_callable(m, args[1], [o.fields[0]], 'bool')
+    if what == 'inspect':
+        return o
+    raise Unsupported('Option::' + what)
+
+
+@summary(r'Result::<.*>::(map|map_err|and_then|or_else|unwrap_or|unwrap_or_else|is_ok|is_err|err|as_ref|unwrap_err|expect_err|ok_or|map_or|unwrap_or_default)(?:::<.*>)?')
+def result_more(m, mt, args, tys, dty):
+    what = mt.group(1)
+    r = deref(args[0])
+    ok = r.variant == 'Ok'
+    if what == 'map':
+        return mk_enum('Result', 'Ok', [call_callable(m, args[1], [r.fields[0]], dty)]) if ok else r
+    if what == 'map_err':
+        return r if ok else mk_enum('Result', 'Err', [call_callable(m, args[1], [r.fields[0]], dty)])
+    if what == 'and_then':
+        return call_callable(m, args[1], [r.fields[0]], dty) if ok else r
+    if what == 'or_else':
+        return r if ok else call_callable(m, args[1], [r.fields[0]], dty)
+    if what == 'unwrap_or':
+        return r.fields[0] if ok else args[1]
+    if what == 'unwrap_or_else':
+        return r.fields[0] if ok else call_callable(m, args[1], [r.fields[0]], dty)
+    if what == 'is_ok':
+        return ok
+    if what == 'is_err':
+        return not ok
+    if what == 'err':
+        return NONE() if ok else some(r.fields[0])
+    if what == 'as_ref':
+        return mk_enum('Result', r.variant, [Ref(r.fields, 0)])
+    if what in ('unwrap_err', 'expect_err'):
+        if ok:
+            raise Panic('UnwrapErrOnOk', what)
+        return r.fields[0]
+    if what == 'map_or':
+        return call_callable(m, args[2], [r.fields[0]], dty) if ok else args[1]
+    raise Unsupported('Result::' + what)
+
+
+@summary(r'<Option<.*> as Clone>::clone|<Result<.*> as Clone>::clone')
+def option_clone(m, mt, args, tys, dty):
+    return copy_val(deref(args[0]))
+
+
+# ---- more integer methods
+@summary(r'core::num::<impl (%s)>::(wrapping_add|wrapping_sub|wrapping_mul|wrapping_neg)' % INT)
+def int_wrapping(m, mt, args, tys, dty):
+    lo, hi = INT_RANGE[mt.group(1)]
+    op = mt.group(2)
+    x = args[0]
+    v = -x if op == 'wrapping_neg' else {'wrapping_add': lambda: x + args[1], 'wrapping_sub': lambda: x - args[1], 'wrapping_mul': lambda: x * args[1]}[op]()
+    n = hi - lo + 1
+    if not is_sym(v):
+        return (v - lo) % n + lo
+    q, r = m.fresh('wq'), m.fresh('wr')
+    m.assume(z3.And(v - lo == q * n + r, r >= 0, r < n))
+    return r + lo
+
+
+@summary(r'core::num::<impl (%s)>::saturating_(mul|pow)' % INT)
+def int_saturating_mul(m, mt, args, tys, dty):
+    lo, hi = INT_RANGE[mt.group(1)]
+    x, y = args
+    if mt.group(2) == 'pow':
+        y = m.concretize(y)
+        if is_sym(x):
+            raise Unsupported('saturating_pow symbolic base')
+        v = x ** y
+    else:
+        v = x * y
+    if is_sym(v):
+        return z3.If(v > hi, hi, z3.If(v < lo, lo, v))
+    return max(lo, min(hi, v))
+
+
+@summary(r'core::num::<impl (%s)>::(checked_pow|checked_div|checked_rem|checked_abs)' % INT)
+def int_checked_more(m, mt, args, tys, dty):
+    lo, hi = INT_RANGE[mt.group(1)]
+    op = mt.group(2)
+    x = args[0]
+    if op == 'checked_abs':
+        if m.branch_bool(x == lo) and lo < 0:
+            return NONE()
+        return some(zabs(x))
+    y = args[1]
+    if op == 'checked_pow':
+        y = m.concretize(y)
+        if is_sym(x):
+            raise Unsupported('checked_pow symbolic base')
+        v = x ** y
+        return some(v) if lo <= v <= hi else NONE()
+    if m.branch_bool(y == 0):
+        return NONE()
+    q, r = m.tdivrem(x, y)
+    v = q if op == 'checked_div' else r
+    if lo < 0 and m.branch_bool(z3.And(x == lo, y == -1) if (is_sym(x) or is_sym(y)) else (x == lo and y == -1)):
+        return NONE()
+    return some(v)
+
+
+@summary(r'core::num::<impl (%s)>::(abs_diff|unsigned_abs|signum|is_positive|is_negative|div_euclid|clamp|min|max|leading_zeros|count_ones|is_power_of_two|ilog10|ilog2)' % INT)
+def int_misc(m, mt, args, tys, dty):
+    lo, hi = INT_RANGE[mt.group(1)]
+    op = mt.group(2)
+    x = args[0]
+    if op == 'abs_diff':
+        d = x - args[1]
+        return zabs(d)
+    if op == 'unsigned_abs':
+        return zabs(x)
+    if op == 'signum':
+        return z3.If(x > 0, 1, z3.If(x < 0, -1, 0)) if is_sym(x) else ((x > 0) - (x < 0))
+    if op == 'is_positive':
+        return x > 0
+    if op == 'is_negative':
+        return x < 0
+    if op == 'min':
+        y = args[1]
+        return z3.If(x <= y, x, y) if (is_sym(x) or is_sym(y)) else min(x, y)
+    if op == 'max':
+        y = args[1]
+        return z3.If(x >= y, x, y) if (is_sym(x) or is_sym(y)) else max(x, y)
+    if op == 'clamp':
+        a, b = args[1], args[2]
+        if is_sym(x) or is_sym(a) or is_sym(b):
+            return z3.If(x < a, a, z3.If(x > b, b, x))
+        return max(a, min(b, x))
+    if op == 'div_euclid':
+        y = args[1]
+        if is_sym(y):
+            raise Unsupported('div_euclid by symbolic')
+        if not is_sym(x):
+            return (x - (x % abs(y))) // y
+        q, r = m.fresh('eq'), m.fresh('er')
+        m.assume(z3.And(x == q * y + r, r >= 0, r < abs(y)))
+        return q
+    x = m.concretize(x) if is_sym(x) else x
+    bits = {'u8': 8, 'u16': 16, 'u32': 32, 'u64': 64, 'u128': 128, 'usize': 64, 'i8': 8, 'i16': 16, 'i32': 32, 'i64': 64, 'i128': 128, 'isize': 64}[mt.group(1)]
+    if op == 'leading_zeros':
+        return bits - (x % 2 ** bits).bit_length()
+    if op == 'count_ones':
+        return bin(x % 2 ** bits).count('1')
+    if op == 'is_power_of_two':
+        return x > 0 and x & (x - 1) == 0
+    if op == 'ilog10':
+        return len(str(x)) - 1
+    if op == 'ilog2':
+        return x.bit_length() - 1
+    raise Unsupported(op)
+
+
+@summary(r'<(%s) as (?:std::convert::)?TryFrom<(%s)>>::try_from' % (INT, INT))
+def int_try_from_int(m, mt, args, tys, dty):
+    lo, hi = INT_RANGE[mt.group(1)]
+    x = args[0]
+    ok = z3.And(x >= lo, x <= hi) if is_sym(x) else (lo <= x <= hi)
+    if m.branch_bool(ok):
+        return mk_enum('Result', 'Ok', [x])
+    return mk_enum('Result', 'Err', [Agg('struct', 'TryFromIntError', [])])
+
+
+@summary(r'<(%s) as (?:std::convert::)?TryInto<(%s)>>::try_into' % (INT, INT))
+def int_try_into_int(m, mt, args, tys, dty):
+    lo, hi = INT_RANGE[mt.group(2)]
+    x = args[0]
+    ok = z3.And(x >= lo, x <= hi) if is_sym(x) else (lo <= x <= hi)
+    if m.branch_bool(ok):
+        return mk_enum('Result', 'Ok', [x])
+    return mk_enum('Result', 'Err', [Agg('struct', 'TryFromIntError', [])])
+
+
+@summary(r'<(%s) as From<(%s|bool|char)>>::from|<(%s|bool|char) as Into<(%s)>>::into' % (INT, INT, INT, INT))
+def int_from_int(m, mt, args, tys, dty):
+    x = args[0]
+    if isinstance(x, bool):
+        return int(x)
+    if is_sym(x) and z3.is_bool(x):
+        return z3.If(x, 1, 0)
+    return x
+
+
+@summary(r'<(%s) as std::string::ToString>::to_string' % INT)
+def int_to_string(m, mt, args, tys, dty):
+    x = deref(args[0])
+    if is_sym(x):
+        return StrV([IntRender(x, False)])
+    return StrV([ord(c) for c in str(x)])
+
+
+@summary(r'<(%s) as (?:num_traits::)?(?:Zero|One)>::(zero|one)' % INT)
+def int_zero_one(m, mt, args, tys, dty):
+    return 0 if mt.group(2) == 'zero' else 1
+
+
+@summary(r'<(%s) as (?:num_traits::)?Signed>::(abs|is_negative|is_positive|signum)' % INT)
+def int_signed_trait(m, mt, args, tys, dty):
+    x = deref(args[0])
+    op = mt.group(2)
+    if op == 'abs':
+        return zabs(x)
+    if op == 'is_negative':
+        return x < 0
+    if op == 'is_positive':
+        return x > 0
+    return z3.If(x > 0, 1, z3.If(x < 0, -1, 0)) if is_sym(x) else ((x > 0) - (x < 0))
+
+
+@summary(r'<%s as (?:num_traits::)?Signed>::(signum)' % BIG)
+def big_signum(m, mt, args, tys, dty):
+    x = deref(args[0])
+    return z3.If(x > 0, 1, z3.If(x < 0, -1, 0)) if is_sym(x) else ((x > 0) - (x < 0))
+
+
+@summary(r'<%s as (?:num_integer::)?Integer>::(div_floor|mod_floor|gcd|is_multiple_of)' % BIG)
+def big_integer_more(m, mt, args, tys, dty):
+    x, y = deref(args[0]), deref(args[1])
+    op = mt.group(1)
+    if is_sym(y):
+        raise Unsupported('Integer::%s by a symbolic value' % op)
+    if op == 'is_multiple_of':
+        return x % y == 0
+    if op == 'gcd':
+        raise Unsupported('gcd')
+    if not is_sym(x):
+        return x // y if op == 'div_floor' else x % y
+    q, r = m.fresh('fq'), m.fresh('fr')
+    m.assume(z3.And(x == q * y + r, r >= 0, r < abs(y)) if y > 0 else z3.And(x == q * y + r, r <= 0, r > y))
+    return q if op == 'div_floor' else r
+
+
+@summary(r'(?:num_bigint::)?Big(?:Int|Uint)::(is_zero|is_one)')
+def big_inherent_is(m, mt, args, tys, dty):
+    return deref(args[0]) == (0 if mt.group(1) == 'is_zero' else 1)
+
+
+@summary(r'<%s as (?:num_traits::)?Pow<(%s)>>::pow|<&%s as (?:num_traits::)?Pow<(%s)>>::pow' % (BIG, INT, BIG, INT))
+def big_pow_trait(m, mt, args, tys, dty):
+    base = deref(args[0])
+    e = m.concretize(args[1])
+    if is_sym(base):
+        if e > 3:
+            raise Unsupported('pow of symbolic base')
+        r = 1
+        for _ in range(e):
+            r = r * base
+        return r
+    return base ** e
+
+
+@summary(r'(?:num_bigint::)?BigInt::into_parts')
+def bigint_into_parts(m, mt, args, tys, dty):
+    x = args[0]
+    return Agg('tuple', '()', [big_sign(m, None, [Ref([x], 0)], None, None), zabs(x)])
+
+
+@summary(r'(?:num_bigint::)?BigInt::(to_biguint)|<%s as (?:num_bigint::)?ToBigUint>::to_biguint' % BIG)
+def bigint_to_biguint(m, mt, args, tys, dty):
+    x = deref(args[0])
+    if m.branch_bool(x < 0):
+        return NONE()
+    return some(x)
+
+
+@summary(r'(?:num_bigint::)?BigInt::(into_magnitude)')
+def bigint_into_magnitude(m, mt, args, tys, dty):
+    return zabs(args[0])
+
+
+@summary(r'<%s as (?:num_bigint::)?ToBigInt>::to_bigint' % BIG)
+def big_to_bigint(m, mt, args, tys, dty):
+    return some(deref(args[0]))
+
+
+@summary(r'<%s as From<%s>>::from|<%s as Into<%s>>::into' % (BIG, BIG, BIG, BIG))
+def big_from_big(m, mt, args, tys, dty):
+    return args[0]
+
+
+@summary(r'<%s as Default>::default' % BIG)
+def big_default(m, mt, args, tys, dty):
+    return 0
+
+
+@summary(r'std::mem::(replace|take)::<.*>')
+def mem_replace(m, mt, args, tys, dty):
+    old = args[0].get()
+    if mt.group(1) == 'replace':
+        args[0].set(args[1])
+    else:
+        if isinstance(old, VecV):
+            args[0].set(VecV([]))
+        elif isinstance(old, StrV):
+            args[0].set(StrV())
+        elif isinstance(old, Agg) and old.kind == 'enum' and old.name == 'Option':
+            args[0].set(NONE())
+        elif isinstance(old, int) or is_sym(old):
+            args[0].set(0)
+        else:
+            raise Unsupported('mem::take of %r' % (old,))
+    return old
+
+
+@summary(r'std::mem::drop::<.*>|core::mem::drop::<.*>|std::mem::forget::<.*>')
+def mem_drop(m, mt, args, tys, dty):
+    return UNIT()
+
+
+@summary(r'std::cmp::(max|min)::<.*>')
+def cmp_maxmin_generic(m, mt, args, tys, dty):
+    x, y = args
+    if isinstance(x, Agg) or isinstance(y, Agg):
+        raise Unsupported('cmp::max/min on aggregates')
+    if not is_sym(x) and not is_sym(y):
+        return max(x, y) if mt.group(1) == 'max' else min(x, y)
+    return z3.If(x >= y, x, y) if mt.group(1) == 'max' else z3.If(x <= y, x, y)
+
+
+# ---- Hasher: the harness passes a python list as recording state; every write call is one recorded chunk
+@summary(r'<.* as (?:std::hash::|core::hash::)?Hasher>::write')
+def hasher_write(m, mt, args, tys, dty):
+    h = deref(args[0])
+    sl = args[1]
+    try:
+        items = list(str_items(sl))
+    except Unsupported:
+        s2 = as_slice(sl)
+        items = [s2.get(i) for i in range(len(s2))]
+    h.append(items)
+    return UNIT()
+
+
+@summary(r'<.* as (?:std::hash::|core::hash::)?Hasher>::write_(u8|u16|u32|u64|u128|usize|i8|i16|i32|i64|i128|isize|length_prefix|str)')
+def hasher_write_prim(m, mt, args, tys, dty):
+    h = deref(args[0])
+    if mt.group(1) == 'str':
+        h.append(list(str_items(args[1])))
+        h.append([0xff])
+    elif mt.group(1) in ('u8', 'i8'):
+        h.append([args[1]])
+    else:
+        h.append([('int:' + mt.group(1), args[1])])
+    return UNIT()
+
+
+@summary(r'<(?:str|&str) as std::hash::Hash>::hash::<.*>')
+def str_hash(m, mt, args, tys, dty):
+    deref(args[1]).append(list(str_items(args[0])))
+    deref(args[1]).append([0xff])
+    return UNIT()
+
+
+@summary(r'<(%s) as std::hash::Hash>::hash::<.*>' % INT)
+def int_hash(m, mt, args, tys, dty):
+    deref(args[1]).append([('int:' + mt.group(1), deref(args[0]))])
+    return UNIT()
